@@ -2,6 +2,7 @@
 pub mod api;
 pub mod engines;
 pub mod fsck;
+pub mod fuzzing;
 pub mod gen;
 pub mod handles;
 pub mod interp;
